@@ -37,6 +37,13 @@ ENTRIES = {
     "model_matrix": "model_matrix(SPEC, df, output=OUT)",
     "Formula.get_model_matrix": "Formula(SPEC).get_model_matrix(df, output=OUT)",
     "ModelSpec.from_spec.get_model_matrix": "ModelSpec.from_spec(SPEC, output=OUT).get_model_matrix(df)",
+    # the same builds with attributes given as overrides at build time (for structured specs this is
+    # ModelSpecs.get_model_matrix(data, **overrides)); na_action / ensure_full_rank restate the defaults
+    "ModelSpecs.get_model_matrix(output=)": "ModelSpec.from_spec(SPEC).get_model_matrix(df, output=OUT)",
+    "ModelSpecs.get_model_matrix(na_action=, ensure_full_rank=)":
+        "ModelSpec.from_spec(SPEC, output=OUT).get_model_matrix(df, na_action='drop', ensure_full_rank=True)",
+    # the specs attached to an earlier result of the same data, re-built with an override
+    "result.model_spec.get_model_matrix(output=)": "model_matrix(SPEC, df).model_spec.get_model_matrix(df, output=OUT)",
 }
 OUTPUTS = ("pandas", "numpy", "sparse")
 INDEXES = ("range", "str", "perm-int")
@@ -581,7 +588,8 @@ def run_bounded(ctx):
         rule=f"every structure skeleton over '~', '|' (1-4 parts per side), tuples (2-4 items) and keywords "
         f"(a / lhs,rhs / root,a / root,a,b; Formula(**kw) and dict form) with depth<=3 and <=4 parts: {len(skels)} skeletons, "
         f"{len(skels_used)} used in this tier x {per} seeded draws of (distinct parts from an {len(POOL)}-entry pool, 6-row frame "
-        "with 0-2 nulls per column, entry point, output, index kind); non-trivial when some but not all rows are jointly dropped",
+        "with 0-2 nulls per column, entry point (6: model_matrix, Formula.get_model_matrix, ModelSpec(s).get_model_matrix without and "
+        "with build-time attribute overrides, specs of an earlier result re-built with an override), output, index kind); non-trivial when some but not all rows are jointly dropped",
         exhaustive=False,
         bound="depth<=3, parts<=4, rows=6, 5 columns",
     ) as b:
